@@ -1,6 +1,7 @@
 import OdlModel.Common
 import OdlModel.Model.CRat
 import OdlModel.Model.Adjoint
+import OdlModel.Model.AdjointFD
 open OdlModel OdlModel.Adjoint
 
 /-!
@@ -72,6 +73,18 @@ def parseKind : String → Option BKind
 def getSp (tbl : Array SpD) (s : String) : Option SpD := do
   let k ← s.toNat?
   tbl[k]?
+
+def parseMethod : String → Option FiniteDiff.Method
+  | "central" => some .central | "forward" => some .forward | "backward" => some .backward
+  | _ => none
+
+def parsePad : String → Option FiniteDiff.Pad
+  | "constant" => some .constant | "symmetric" => some .symmetric
+  | "symmetric_adjoint" => some .symmetricAdj | "periodic" => some .periodic
+  | "order0" => some .order0 | "order0_adjoint" => some .order0Adj
+  | "order1" => some .order1 | "order1_adjoint" => some .order1Adj
+  | "order2" => some .order2 | "order2_adjoint" => some .order2Adj
+  | _ => none
 
 /-- One postfix token. -/
 def step (tbl : Array SpD) (stack : List (Impl C)) (tok : String) : Option (List (Impl C)) := do
@@ -149,6 +162,15 @@ def step (tbl : Array SpD) (stack : List (Impl C)) (tok : String) : Option (List
         | _ => none)
       some (.leaf (Leaf.matrixAxis CRat.conj (← sp d) (← sp r) (← n.toNat?) (← m.toNat?)
         (← q.toNat?) cw (← parseMat mat)) :: st)
+  | ["pderiv", s, n, q, me, pa, dx], st => do
+      -- PartialDerivative along an axis of length n (q = product of the later axes), cell side dx
+      let me ← parseMethod me; let pa ← parsePad pa; let n ← n.toNat?
+      -- sizes for which `finite_diff` (or that of the adjoint) raises are not operators
+      if (FiniteDiff.sizeCheck Gen.FiniteDiff.guards (Gen.FiniteDiff.tbl me pa) pa n).isSome then none
+      if (FiniteDiff.sizeCheck Gen.FiniteDiff.guards
+          (Gen.FiniteDiff.tbl (Gen.FiniteDiff.adjMethod me) (Gen.FiniteDiff.adjPad pa))
+          (Gen.FiniteDiff.adjPad pa) n).isSome then none
+      some (.leaf (Leaf.partialDeriv (← sp s) n (← q.toNat?) me pa (← CRat.parse dx)) :: st)
   | ["sum"], b :: a :: st => some (.sum a b :: st)
   | ["comp"], b :: a :: st => some (.comp a b :: st)
   | ["lsc", c], a :: st => do some (.lscal a (← CRat.parse c) :: st)
